@@ -9,33 +9,6 @@ From VLS Require Import Base.U64 Model.Joint Proofs.EnforcementProofs Proofs.Cou
 From VLS Require Proofs.PaymentsProofs Props.C06.
 Require Import Lia.
 
-(** histories short enough for the counters to stay below 2^64 (as [short] in C01) *)
-Definition jshort (nch : nat) (jops : list jop) : Prop :=
-  2 * N.of_nat (4 + (1 + nch) * length jops) + 4 <= U64MAX.
-
-Lemma boot_wf : Forall wf_op boot.
-Proof. repeat constructor; cbv; discriminate. Qed.
-
-(** the history channel [ch] went through, from the stub *)
-Definition chan_history warn prof nch mf mp (jops : list jop) (ch : N) : list op :=
-  boot ++ jrun_cops warn prof nch mf mp ch (jinit warn prof) jops.
-
-Lemma chan_history_spec warn prof nch mf mp jops ch :
-  jc (jrun warn prof nch mf mp (jinit warn prof) jops) ch =
-  grun warn prof (Stub, ghost0) (chan_history warn prof nch mf mp jops ch).
-Proof. unfold chan_history. rewrite jrun_chan, grun_app. reflexivity. Qed.
-
-Lemma chan_history_wf warn prof nch mf mp jops ch :
-  Forall jwf jops -> jshort nch jops ->
-  Forall wf_op (chan_history warn prof nch mf mp jops ch) /\
-  short (chan_history warn prof nch mf mp jops ch).
-Proof.
-  intros Hwf Hs. destruct (jrun_cops_wf warn prof nch mf mp jops (jinit warn prof) ch Hwf) as [W L].
-  split; [apply Forall_app; split; [exact boot_wf | exact W]|].
-  unfold short, chan_history, jshort in *. rewrite app_length. cbn [boot length].
-  lia.
-Qed.
-
 (** C01 on every channel of every joint history *)
 Theorem J_C01_secret_needs_successor :
   forall warn prof nch mf mp (jops : list jop) (ch k : N),
@@ -95,3 +68,41 @@ Proof.
   exact (C06.C06_no_overpay nch mf mp _ h a Hf).
 Qed.
 Print Assumptions J_C06_no_overpay.
+
+(** What neither component model can state: in every joint history, a revocation request moves
+    the holder counter of a channel (and so hands out the secret of the commitment it leaves
+    behind) only if the node-wide payment check accepts, on the ledger as it is at that moment,
+    the HTLCs of the validated commitment that becomes current. *)
+Theorem J_revoke_needs_payment_check :
+  forall warn prof nch mf mp (jops : list jop) (ch n : N) (c : P.content),
+    c01_filter warn -> Forall jwf jops -> jshort nch jops ->
+    let s := jrun warn prof nch mf mp (jinit warn prof) jops in
+    let s' := fst (jstep warn prof nch mf mp s (JRevoke ch n)) in
+    slot_next_h (fst (jc s' ch)) <> slot_next_h (fst (jc s ch)) ->
+    P.hnxt (P.chans (jp s) ch) = Some c ->
+    P.validate_payments nch mf mp (jp s) ch (Some c) None = true.
+Proof.
+  intros warn prof nch mf mp jops ch n c [W1 [W2 [W3 W4]]].
+  exact (revoke_needs_payment_check warn prof W1 W2 W3 W4 nch mf mp jops ch n c).
+Qed.
+Print Assumptions J_revoke_needs_payment_check.
+
+(** Non-vacuity: two channels, an approved payment of 100 000 sat validated on channel 0, the
+    same payment signed on channel 1, then the revocation on channel 0: refused by the payment
+    re-check (the counter stays), and after channel 1 dropped the HTLC again it goes through and
+    hands out secret 0. *)
+Example J_nonvacuous :
+  let c := P.mkCt [(1, 100000)] [] in
+  let e := P.mkCt [] [] in
+  let ops := [JAddInvoice 1 100000000; JValidateHolder 0 1 1 c SGood true; JCpRevoke 1 0 0 0 true;
+              JSignCp 1 1 1 1 c true; JRevoke 0 1] in
+  let s := jrun strict Debug 2 222000 10 (jinit strict Debug) ops in
+  Forall jwf ops /\ jshort 2 ops /\
+  slot_next_h (fst (jc s 0)) = Some 1 /\ disclosed (snd (jc s 0)) = [] /\
+  let ops2 := [JCpRevoke 1 0 0 0 true; JSignCp 1 2 2 0 e true; JRevoke 0 1] in
+  let s2 := jrun strict Debug 2 222000 10 s ops2 in
+  slot_next_h (fst (jc s2 0)) = Some 2 /\ disclosed (snd (jc s2 0)) = [0].
+Proof.
+  cbv zeta. split; [repeat constructor; cbv; discriminate|].
+  split; [cbv; discriminate|]. vm_compute. repeat split; reflexivity.
+Qed.
